@@ -118,3 +118,298 @@ Definition sq_list_of_bb (b : N) : list N := sq_list_fuel 64 b.
 Fixpoint popcount_pos (p : positive) : nat :=
   match p with xH => 1%nat | xO q => popcount_pos q | xI q => S (popcount_pos q) end.
 Definition popcount (b : N) : nat := match b with 0 => O | Npos p => popcount_pos p end.
+
+Lemma in_squares64' s : In s squares64 <-> s < 64.
+Proof.
+  unfold squares64. rewrite in_map_iff. split.
+  - intros [n [<- Hn]]. apply in_seq in Hn. lia.
+  - intros H. exists (N.to_nat s). split; [apply N2Nat.id|]. apply in_seq. lia.
+Qed.
+
+
+(** ** PopLsb loops: the visiting order is exactly the set bits, ascending *)
+
+(** ** lsb *)
+Lemma ctz_spec p :
+  N.testbit (Npos p) (ctz p) = true /\ forall i, i < ctz p -> N.testbit (Npos p) i = false.
+Proof.
+  induction p as [q IH|q IH|]; cbn [ctz].
+  - split; [reflexivity|]. intros i Hi. lia.
+  - destruct IH as [IH1 IH2]. change (Npos q~0) with (2 * Npos q). split.
+    + replace (1 + ctz q) with (N.succ (ctz q)) by lia.
+      rewrite N.testbit_even_succ by apply N.le_0_l. exact IH1.
+    + intros i Hi. destruct (N.eq_dec i 0) as [->|Hi0]; [apply N.testbit_even_0|].
+      replace i with (N.succ (N.pred i)) by lia.
+      rewrite N.testbit_even_succ by apply N.le_0_l. apply IH2. lia.
+  - split; [reflexivity|]. intros i Hi. lia.
+Qed.
+
+Lemma lsb_spec : forall b, b <> 0 ->
+  N.testbit b (lsb b) = true /\ forall i, i < lsb b -> N.testbit b i = false.
+Proof.
+  intros [|p] Hb; [contradiction|]. cbn [lsb]. apply ctz_spec.
+Qed.
+
+Lemma lsb_lt b i : b <> 0 -> N.testbit b i = true -> i <> lsb b -> lsb b < i.
+Proof.
+  intros Hb Hi Hne. destruct (lsb_spec b Hb) as [_ H2].
+  destruct (N.lt_trichotomy i (lsb b)) as [Hlt|[Heq|Hgt]]; [|contradiction|exact Hgt].
+  rewrite (H2 i Hlt) in Hi. discriminate.
+Qed.
+
+(** ** b & (b-1) clears exactly the lowest set bit *)
+Lemma pop_pos_clears p : forall i,
+  N.testbit (Npos p) i && N.testbit (Npos p - 1) i
+  = N.testbit (Npos p) i && negb (i =? ctz p).
+Proof.
+  induction p as [q IH|q IH|]; intros i; cbn [ctz].
+  - (* 2a+1 : b-1 = 2a *)
+    replace (Npos q~1 - 1) with (2 * Npos q) by lia.
+    change (Npos q~1) with (2 * Npos q + 1).
+    destruct (N.eq_dec i 0) as [->|Hi0].
+    + rewrite N.testbit_odd_0, N.testbit_even_0. reflexivity.
+    + replace i with (N.succ (N.pred i)) by lia.
+      rewrite N.testbit_odd_succ, N.testbit_even_succ by apply N.le_0_l.
+      replace (N.succ (N.pred i) =? 0) with false by (symmetry; apply N.eqb_neq; lia).
+      rewrite andb_diag, andb_true_r. reflexivity.
+  - (* 2a : b-1 = 2(a-1)+1 *)
+    replace (Npos q~0 - 1) with (2 * (Npos q - 1) + 1) by lia.
+    change (Npos q~0) with (2 * Npos q).
+    destruct (N.eq_dec i 0) as [->|Hi0].
+    + rewrite N.testbit_even_0. reflexivity.
+    + replace i with (N.succ (N.pred i)) by lia.
+      rewrite N.testbit_odd_succ, N.testbit_even_succ by apply N.le_0_l.
+      rewrite IH. f_equal. f_equal.
+      destruct (N.eqb_spec (N.pred i) (ctz q)) as [E|E];
+        destruct (N.eqb_spec (N.succ (N.pred i)) (1 + ctz q)) as [F|F]; try reflexivity; lia.
+  - change (1 - 1) with 0. rewrite N.bits_0, andb_false_r.
+    destruct (N.eq_dec i 0) as [->|Hi0]; [reflexivity|].
+    replace i with (N.succ (N.pred i)) by lia.
+    change 1 with (2 * 0 + 1) at 1.
+    rewrite N.testbit_odd_succ by apply N.le_0_l. rewrite N.bits_0. reflexivity.
+Qed.
+
+Lemma pop_lsb_clears : forall b i, b <> 0 ->
+  N.testbit (N.land b (b - 1)) i = N.testbit b i && negb (i =? lsb b).
+Proof.
+  intros [|p] i Hb; [contradiction|]. rewrite N.land_spec. cbn [lsb]. apply pop_pos_clears.
+Qed.
+
+(** ** unfolding the loop *)
+Lemma sq_list_fuel_0 k : sq_list_fuel k 0 = [].
+Proof. destruct k; reflexivity. Qed.
+
+Lemma sq_list_fuel_S k b : b <> 0 ->
+  sq_list_fuel (S k) b = lsb b :: sq_list_fuel k (N.land b (b - 1)).
+Proof.
+  intros Hb. cbn [sq_list_fuel]. unfold pop_lsb.
+  destruct (N.eqb_spec b 0) as [E|E]; [contradiction|reflexivity].
+Qed.
+
+Lemma sq_fuel_In_sound k : forall b s, In s (sq_list_fuel k b) -> N.testbit b s = true.
+Proof.
+  induction k as [|k IH]; intros b s H; [contradiction|].
+  destruct (N.eq_dec b 0) as [->|Hb]; [rewrite sq_list_fuel_0 in H; contradiction|].
+  rewrite sq_list_fuel_S in H by exact Hb. destruct H as [<-|H].
+  - apply lsb_spec, Hb.
+  - apply IH in H. rewrite pop_lsb_clears in H by exact Hb.
+    apply andb_true_iff in H. apply H.
+Qed.
+
+Lemma sq_fuel_sorted k : forall b, StronglySorted N.lt (sq_list_fuel k b).
+Proof.
+  induction k as [|k IH]; intros b; [constructor|].
+  destruct (N.eq_dec b 0) as [->|Hb]; [rewrite sq_list_fuel_0; constructor|].
+  rewrite sq_list_fuel_S by exact Hb. constructor; [apply IH|].
+  apply Forall_forall. intros x Hx. apply sq_fuel_In_sound in Hx.
+  rewrite pop_lsb_clears in Hx by exact Hb. apply andb_true_iff in Hx as [Hx1 Hx2].
+  apply lsb_lt; [exact Hb|exact Hx1|]. intros ->. rewrite N.eqb_refl in Hx2. discriminate.
+Qed.
+
+Definition bits_in (k : nat) (b : N) : Prop :=
+  forall i, N.testbit b i = true -> 64 <= i + N.of_nat k /\ i < 64.
+
+Lemma bits_in_pop k b : b <> 0 -> bits_in (S k) b -> bits_in k (N.land b (b - 1)).
+Proof.
+  intros Hb Hr i Hi. rewrite pop_lsb_clears in Hi by exact Hb.
+  apply andb_true_iff in Hi as [Hi1 Hi2].
+  assert (Hlt : lsb b < i).
+  { apply lsb_lt; [exact Hb|exact Hi1|]. intros ->. rewrite N.eqb_refl in Hi2. discriminate. }
+  pose proof (Hr _ (proj1 (lsb_spec b Hb))) as [Hl1 Hl2].
+  pose proof (Hr _ Hi1) as [Hi3 Hi4].
+  rewrite Nat2N.inj_succ in Hl1. lia.
+Qed.
+
+Lemma sq_fuel_complete k : forall b, bits_in k b ->
+  forall s, N.testbit b s = true -> In s (sq_list_fuel k b).
+Proof.
+  induction k as [|k IH]; intros b Hr s Hs.
+  - apply Hr in Hs. cbn [N.of_nat] in Hs. lia.
+  - destruct (N.eq_dec b 0) as [->|Hb]; [rewrite N.bits_0 in Hs; discriminate|].
+    rewrite sq_list_fuel_S by exact Hb.
+    destruct (N.eq_dec s (lsb b)) as [->|Hne]; [left; reflexivity|]. right.
+    apply IH; [apply bits_in_pop; assumption|].
+    rewrite pop_lsb_clears by exact Hb. rewrite Hs.
+    apply N.eqb_neq in Hne. rewrite Hne. reflexivity.
+Qed.
+
+(** ** strictly sorted lists *)
+Lemma sorted_ext (l1 : list N) : forall l2,
+  StronglySorted N.lt l1 -> StronglySorted N.lt l2 ->
+  (forall x, In x l1 <-> In x l2) -> l1 = l2.
+Proof.
+  induction l1 as [|a l1 IH]; intros [|c l2] S1 S2 HI.
+  - reflexivity.
+  - exfalso. apply (proj2 (HI c)). left; reflexivity.
+  - exfalso. apply (proj1 (HI a)). left; reflexivity.
+  - apply StronglySorted_inv in S1 as [S1 F1]. apply StronglySorted_inv in S2 as [S2 F2].
+    rewrite Forall_forall in F1, F2.
+    assert (Hac : a = c).
+    { destruct (proj1 (HI a) (or_introl eq_refl)) as [E|Ha]; [now symmetry|].
+      destruct (proj2 (HI c) (or_introl eq_refl)) as [E|Hc]; [exact E|].
+      apply F2 in Ha. apply F1 in Hc. lia. }
+    subst c. f_equal. apply IH; [exact S1|exact S2|].
+    intros x. split; intros Hx.
+    + destruct (proj1 (HI x) (or_intror Hx)) as [E|H]; [|exact H].
+      apply F1 in Hx. lia.
+    + destruct (proj2 (HI x) (or_intror Hx)) as [E|H]; [|exact H].
+      apply F2 in Hx. lia.
+Qed.
+
+Lemma sorted_filter (f : N -> bool) l :
+  StronglySorted N.lt l -> StronglySorted N.lt (filter f l).
+Proof.
+  induction l as [|a l IH]; intros S; [constructor|].
+  apply StronglySorted_inv in S as [S F]. cbn [filter].
+  destruct (f a); [|apply IH, S]. constructor; [apply IH, S|].
+  rewrite Forall_forall in *. intros x Hx. apply filter_In in Hx as [Hx _]. apply F, Hx.
+Qed.
+
+Lemma sorted_NoDup (l : list N) : StronglySorted N.lt l -> NoDup l.
+Proof.
+  induction l as [|a l IH]; intros S; [constructor|].
+  apply StronglySorted_inv in S as [S F]. constructor; [|apply IH, S].
+  intros Ha. rewrite Forall_forall in F. apply F in Ha. lia.
+Qed.
+
+Lemma sorted_seq n : forall a, StronglySorted N.lt (map N.of_nat (seq a n)).
+Proof.
+  induction n as [|n IH]; intros a; cbn [seq map]; constructor; [apply IH|].
+  apply Forall_forall. intros x Hx. apply in_map_iff in Hx as [m [<- Hm]].
+  apply in_seq in Hm. lia.
+Qed.
+
+Lemma squares64_sorted : StronglySorted N.lt squares64.
+Proof. apply sorted_seq. Qed.
+
+(** ** main results *)
+Lemma bits_in_64 b : b < W64 -> bits_in 64 b.
+Proof.
+  intros Hb i Hi. rewrite W64_pow in Hb. pose proof (testbit_lt_pow2 b 64 i Hb Hi) as Hlt.
+  change (N.of_nat 64) with 64. lia.
+Qed.
+
+Theorem sq_list_of_bb_In : forall b s, b < W64 ->
+  (In s (sq_list_of_bb b) <-> N.testbit b s = true /\ s < 64).
+Proof.
+  intros b s Hb. unfold sq_list_of_bb. split.
+  - intros H. apply sq_fuel_In_sound in H. split; [exact H|].
+    rewrite W64_pow in Hb. exact (testbit_lt_pow2 b 64 s Hb H).
+  - intros [H _]. apply sq_fuel_complete; [apply bits_in_64, Hb|exact H].
+Qed.
+
+Theorem sq_list_of_bb_sorted : forall b, b < W64 -> StronglySorted N.lt (sq_list_of_bb b).
+Proof. intros b _. apply sq_fuel_sorted. Qed.
+
+Theorem sq_list_of_bb_filter : forall b, b < W64 ->
+  sq_list_of_bb b = filter (N.testbit b) squares64.
+Proof.
+  intros b Hb. apply sorted_ext.
+  - apply sq_list_of_bb_sorted, Hb.
+  - apply sorted_filter, squares64_sorted.
+  - intros x. rewrite sq_list_of_bb_In by exact Hb. rewrite filter_In, in_squares64'. tauto.
+Qed.
+
+Theorem sq_list_of_bb_NoDup : forall b, b < W64 -> NoDup (sq_list_of_bb b).
+Proof. intros b Hb. apply sorted_NoDup, sq_list_of_bb_sorted, Hb. Qed.
+
+(** ** popcount *)
+Lemma popcount_double a : popcount (2 * a) = popcount a.
+Proof. destruct a; reflexivity. Qed.
+
+Lemma popcount_succ_double a : popcount (2 * a + 1) = S (popcount a).
+Proof. destruct a; reflexivity. Qed.
+
+Lemma land_even_odd a c : N.land (2 * a) (2 * c + 1) = 2 * N.land a c.
+Proof.
+  apply N.bits_inj. intros i. rewrite N.land_spec.
+  destruct (N.eq_dec i 0) as [->|Hi0].
+  - rewrite !N.testbit_even_0. reflexivity.
+  - replace i with (N.succ (N.pred i)) by lia.
+    rewrite N.testbit_odd_succ, !N.testbit_even_succ by apply N.le_0_l.
+    rewrite N.land_spec. reflexivity.
+Qed.
+
+Lemma land_odd_even a : N.land (2 * a + 1) (2 * a) = 2 * a.
+Proof.
+  apply N.bits_inj. intros i. rewrite N.land_spec.
+  destruct (N.eq_dec i 0) as [->|Hi0].
+  - rewrite N.testbit_odd_0, !N.testbit_even_0. reflexivity.
+  - replace i with (N.succ (N.pred i)) by lia.
+    rewrite N.testbit_odd_succ, !N.testbit_even_succ by apply N.le_0_l.
+    apply andb_diag.
+Qed.
+
+Lemma popcount_pop_pos p :
+  popcount (Npos p) = S (popcount (N.land (Npos p) (Npos p - 1))).
+Proof.
+  induction p as [q IH|q IH|].
+  - replace (Npos q~1 - 1) with (2 * Npos q) by lia.
+    change (Npos q~1) with (2 * Npos q + 1).
+    rewrite land_odd_even, popcount_succ_double, popcount_double. reflexivity.
+  - replace (Npos q~0 - 1) with (2 * (Npos q - 1) + 1) by lia.
+    change (Npos q~0) with (2 * Npos q).
+    rewrite land_even_odd, !popcount_double. exact IH.
+  - reflexivity.
+Qed.
+
+Lemma popcount_pop b : b <> 0 -> popcount b = S (popcount (N.land b (b - 1))).
+Proof. intros Hb. destruct b as [|p]; [contradiction|apply popcount_pop_pos]. Qed.
+
+Lemma sq_fuel_length k : forall b, bits_in k b -> length (sq_list_fuel k b) = popcount b.
+Proof.
+  induction k as [|k IH]; intros b Hr.
+  - destruct (N.eq_dec b 0) as [->|Hb]; [reflexivity|]. exfalso.
+    pose proof (Hr _ (proj1 (lsb_spec b Hb))) as [H1 H2]. cbn [N.of_nat] in H1. lia.
+  - destruct (N.eq_dec b 0) as [->|Hb]; [reflexivity|].
+    rewrite sq_list_fuel_S by exact Hb. cbn [length].
+    rewrite IH by (apply bits_in_pop; assumption).
+    symmetry. apply popcount_pop, Hb.
+Qed.
+
+Theorem sq_list_of_bb_length : forall b, b < W64 -> length (sq_list_of_bb b) = popcount b.
+Proof. intros b Hb. apply sq_fuel_length, bits_in_64, Hb. Qed.
+
+(** ** convenience corollaries *)
+Lemma sq_list_of_bb_In_testbit : forall b s, b < W64 ->
+  (In s (sq_list_of_bb b) <-> N.testbit b s = true).
+Proof.
+  intros b s Hb. rewrite sq_list_of_bb_In by exact Hb. split; [intros [H _]; exact H|].
+  intros H. split; [exact H|]. rewrite W64_pow in Hb. exact (testbit_lt_pow2 b 64 s Hb H).
+Qed.
+
+Lemma sq_list_of_bb_sorted_any : forall b, StronglySorted N.lt (sq_list_of_bb b).
+Proof. intros b. apply sq_fuel_sorted. Qed.
+
+Lemma sq_list_of_bb_NoDup_any : forall b, NoDup (sq_list_of_bb b).
+Proof. intros b. apply sorted_NoDup, sq_list_of_bb_sorted_any. Qed.
+
+Lemma popcount_pos_nonzero p : popcount_pos p <> O.
+Proof. induction p as [q IH|q IH|]; cbn [popcount_pos]; [discriminate|exact IH|discriminate]. Qed.
+
+Lemma popcount_0_iff b : popcount b = O <-> b = 0.
+Proof.
+  split; [|intros ->; reflexivity]. destruct b as [|p]; [reflexivity|].
+  cbn [popcount]. intros H. exfalso. exact (popcount_pos_nonzero p H).
+Qed.
+
